@@ -2,6 +2,7 @@
 C13 — Token hold time is honoured (station level).
 -/
 import ProfiVerif.Model.Station
+import ProfiVerif.Lemmas.StationMark
 import ProfiVerif.Lemmas.StationVisit
 
 namespace PV.C13
@@ -48,7 +49,7 @@ theorem cycles_before_deadline (c : Ctx) (now : Int) (d : UseData) (fcd : Bool) 
       let c1 := { c with s := (waitSyncPause (holdUpdate c.s d) now).1 }
       if now < (holdUpdate c.s d).endTokenHoldTime then useTokenGo c1 now d false
       else if fcd = false then useTokenGo c1 now d true
-      else .ok { c1 with s := { c1.s with st := .passToken true .first } } := by
+      else passNow c1 now := by
   have hk := wait_keeps (holdUpdate c.s d) now
   have hs := hold_keeps_st c.s d
   unfold doUseToken
@@ -59,17 +60,36 @@ theorem cycles_before_deadline (c : Ctx) (now : Int) (d : UseData) (fcd : Bool) 
   · cases fcd with
     | false => simp [h1]
     | true =>
-      simp [h1, tr, toPassToken, hk.1, hk.2, hs, hst]
+      simp [h1]
+
+/-- The end of a token hold (`passNow`: transition to `PassToken` and `do_pass_token` in the same poll)
+asks no application. -/
+theorem passNow_no_calls (c : Ctx) (now : Int) (c' : Ctx) (h : passNow c now = .ok c') : c'.calls = c.calls := by
+  unfold passNow at h
+  cases htr : tr c (fun s => toPassToken s true .first) "transition_pass_token" with
+  | panic s => rw [htr] at h; cases h
+  | ok c1 =>
+    rw [htr] at h
+    simp only [Res.bind] at h
+    obtain ⟨s', _, rfl⟩ := tr_cases _ _ _ _ htr
+    have := doPassToken_calls _ now c' h
+    exact this
 
 /-- `pass_after_deadline`: once the deadline has passed and the one guaranteed message cycle of this
-visit is done, the station asks no application and moves to `PassToken` (with GAP maintenance). -/
+visit is done, the station asks no application and passes the token on — since the repair of finding
+K3 in the same poll (`passNow`). -/
 theorem pass_after_deadline (c : Ctx) (now : Int) (d : UseData) (hst : c.s.st = .useToken d true)
     (hw : (waitSyncPause (holdUpdate c.s d) now).2 = false)
     (hdl : ¬ now < (holdUpdate c.s d).endTokenHoldTime) :
-    doUseToken c now =
-      .ok { c with s := { (waitSyncPause (holdUpdate c.s d) now).1 with st := .passToken true .first } } := by
-  rw [cycles_before_deadline c now d true hst hw]
-  simp [hdl]
+    doUseToken c now = passNow { c with s := (waitSyncPause (holdUpdate c.s d) now).1 } now ∧
+    ∀ c', doUseToken c now = .ok c' → c'.calls = c.calls := by
+  have h1 : doUseToken c now = passNow { c with s := (waitSyncPause (holdUpdate c.s d) now).1 } now := by
+    rw [cycles_before_deadline c now d true hst hw]
+    simp [hdl]
+  refine ⟨h1, fun c' h => ?_⟩
+  rw [h1] at h
+  have := passNow_no_calls _ now c' h
+  exact this
 
 /-- Asking one application appends exactly one `transmit_telegram` record with the given flag. -/
 theorem appTransmit_calls (c : Ctx) (now : Int) (hp : Bool) (c1 : Ctx) (b1 : Bool)
@@ -130,13 +150,17 @@ theorem apps_flag (now : Int) (hp : Bool) :
 open StationVisit
 
 /-- **Per poll, with the flag monotone**: in a poll of a visit (`Station.poll` starting in `UseToken`
-or `AwaitDataResponse`, any inputs) the `first_cycle_done` flag never goes back (`flag` = the flag in
-`UseToken`, `true` in every other state); a poll that starts a message cycle (hands a telegram to the
-PHY) sets it, and is not a poll at or after the deadline with the flag already set. -/
+or `AwaitDataResponse`, any inputs) a message cycle — an application's `transmit_telegram` returned a
+telegram, `hasSend` — sets the `first_cycle_done` flag (`flag` = the flag in `UseToken`, `true` in
+every other state), keeps the station in the visit, and does not happen at or after the deadline with
+the flag already set; and a set flag is fresh again only after a poll that ended the visit by handing
+the token on to the station itself (since the repair of K3 the end of the token hold passes the
+token in the same poll, `passNow`). -/
 theorem cycle_sets_flag (s : Station) (apps : Apps) (now : Int) (phyTx : Bool) (rx : Bytes) (c' : Ctx)
     (hin : inVisit s.st = true) (h : s.poll apps now phyTx rx = .ok c') :
-    (flag s.st = true → flag c'.s.st = true) ∧
-    (c'.tx ≠ none → flag c'.s.st = true ∧ ¬ (deadline s ≤ now ∧ flag s.st = true)) :=
+    (hasSend c'.calls = true →
+      flag c'.s.st = true ∧ inVisit c'.s.st = true ∧ ¬ (deadline s ≤ now ∧ flag s.st = true)) ∧
+    (flag s.st = true → flag c'.s.st = false → c'.tx ≠ none) :=
   poll_visit s apps now phyTx rx c' hin h
 
 /-- **`visit_bounded`**: over ANY sequence of polls of one token visit (arbitrary times — not even
@@ -158,7 +182,8 @@ theorem late_cycle_only_first (s : Station) (apps : Apps) (ins : List (Int × Bo
 
 /-! Non-vacuity: station 7 with one application that always wants to send an SDN telegram to 9.
 Token received at t = 1000; with the deadline already passed (500) exactly one cycle is performed
-(the guaranteed one), with the deadline at 10000 all three polls start a cycle, none of them late. -/
+(the guaranteed one; the next poll ends the visit with a GAP poll), with the deadline at 10000 all
+three polls start a cycle, none of them late. -/
 def demoS (deadl : Int) : Station :=
   { (Station.new { address := 7, rate := 500000, slotBits := 200, ttrBits := 20000, gapWait := 10,
                    hsa := 126, maxRetry := 1, minTsdrBits := 11 }) with
@@ -172,7 +197,7 @@ example : lateCycles (demoS 500) [demoApp] [(1000, false, []), (3000, false, [])
   decide
 example : lateCycles (demoS 10000) [demoApp] [(1000, false, []), (3000, false, []), (5000, false, [])] = some 0 := by
   decide
-example : ((demoS 10000).poll [demoApp] 1000 false []).casesOn (fun c => c.tx.isSome) (fun _ => false) = true := by
+example : ((demoS 10000).poll [demoApp] 1000 false []).casesOn (fun c => hasSend c.calls) (fun _ => false) = true := by
   decide
 
 end PV.C13
